@@ -15,9 +15,9 @@ ValsL == {"x", "yyyy"}
 ActsC04 == {"CachePut", "CacheDelete", "CacheCommit", "CacheReset", "OvlCommit"}
 \* OvlCommit + non-empty initial disks: a block may rewrite exactly the value an earlier block persisted
 ActsC03 == {"OvlPut", "OvlDelete", "OvlCommit"}
-ActsC44 == {"ContractPut", "CacheCommit", "CacheReset", "OvlCommit", "Migrate", "Destroy", "Deploy", "DeployRefused"}
+ActsC44 == {"ContractPut", "CacheCommit", "CacheReset", "OvlCommit", "Migrate", "Destroy", "Deploy", "DeployRefused", "MarkDestroyed", "PutRefused"}
 \* ledger-level binding (transactions = runs of contract actions closed by CacheCommit/CacheReset, blocks = OvlCommit)
-ActsC44n == {"ContractPut", "CacheCommit", "CacheReset", "OvlCommit", "Migrate", "Destroy", "Deploy", "DeployRefused"}
+ActsC44n == {"ContractPut", "CacheCommit", "CacheReset", "OvlCommit", "Migrate", "Destroy", "Deploy", "DeployRefused", "MarkDestroyed", "PutRefused"}
 DiskAll3 == [1..3 -> {"", "x"}]
 DiskEmpty3 == {[i \in 1..3 |-> ""]}
 DiskEmpty6 == {[i \in 1..6 |-> ""]}
